@@ -710,3 +710,18 @@ J(name="c13.cellToChildPos.badres", props=["C13", "C12"], harness="c13.c", entry
   unwind=17, replay=dict(fn="cellToChildPos", args=["child", "parentRes"]))
 J(name="c13.childPosToCell.badres", props=["C13", "C12"], harness="c13.c", entry="h_childPosToCell", enforce=["childPosToCell/childPosToCell_badres"],
   unwind=17, replay=dict(fn="childPosToCell", args=["pos", "parent", "childRes"]))
+
+# the hierarchical polygon walk itself: removes the main assumed contract of C17/C15 if it closes
+WALK_INV = "iter->_bboxes == __CPROVER_loop_entry(iter->_bboxes) && iter->_bboxes != (void*)0 && h3v_live == h3v_live0 + 1 && " \
+           "iter->_res == __CPROVER_loop_entry(iter->_res) && iter->_res >= 0 && iter->_res <= 15 && " \
+           "iter->_polygon == __CPROVER_loop_entry(iter->_polygon) && iter->_flags == __CPROVER_loop_entry(iter->_flags) && " \
+           "(cell != 0 ==> S_RES(cell) <= iter->_res)"
+J(name="c17.iterStepPolygonCompact", props=["C17", "C15"], harness="c17b.c", entry="h_iterStepPolygonCompact", alloc=True, timeout=1800, tier="never",  # out of memory: the contract stays ASSUMED
+  enforce=["iterStepPolygonCompact/iterStepPolygonCompact_full"], unwind=18, checks=["--no-standard-checks"],
+  replace=["isPentagon", "pointInsidePolygon/pointInsidePolygon_fr", "bboxContains/bboxContains_fr", "bboxContainsBBox/bboxContainsBBox_fr",
+           "bboxOverlapsBBox/bboxOverlapsBBox_fr", "bboxToCellBoundary/bboxToCellBoundary_fr", "cellBoundaryInsidePolygon/cellBoundaryInsidePolygon_fr",
+           "cellBoundaryCrossesPolygon/cellBoundaryCrossesPolygon_fr", "cellToBBox/cellToBBox_fr", "cellToBoundary/cellToBoundary_fr",
+           "cellToLatLng/cellToLatLng_fr", "latLngToCell/latLngToCell_fr", "cellToCenterChild/cellToCenterChild_rw"],
+  loops=[dict(fn="iterStepPolygonCompact", loop=0, locals=["cell", "iter"], assigns="cell, *iter, h3v_live", inv=WALK_INV),
+         dict(fn="nextCell", loop=0, locals=["res", "cell"], assigns="res, cell",
+              inv="0 <= res && res <= 15 && res == S_RES(cell) && res <= __CPROVER_loop_entry(res)", dec="res")])
